@@ -31,7 +31,10 @@ func GenDTScript(r *Rng, hist map[string]int, nops int) []string {
 	nk := 1 + r.Intn(len(keys))
 	small := []string{"-", "61", "62", "6162", "00", "ff0102"}
 	vals := []string{"-", "76", "7631", "ffffffffffffffffffffffffff01", "80808080808080808080808001", "@20:7", "@70:3", "00"}
-	scores := []string{"0", "1", "1.5", "-2", "0.1", "100", "1000000000000000000000", "-0.25"}
+	// scores in the engine's canonical spelling (FormatFloat 'f', shortest): among them neighbours that differ by less
+	// than any tolerance a comparison might use (0.1+0.2 against 0.3, 1e-10 apart near 0 and near 1, one ulp at 1e21)
+	scores := []string{"0", "1", "1.5", "-2", "0.1", "100", "1000000000000000000000", "-0.25",
+		"0.3", "0.30000000000000004", "0.0000000001", "0.0000000002", "1.0000000001", "1000000000000000100000"}
 	key := func() string {
 		if r.Chance(1, 60) {
 			hist["dt_key_empty"]++
